@@ -61,11 +61,20 @@ func tsBuild(t tsTR) *v1alpha1.TrafficRouting {
 }
 
 func tsRun(in tsWorld) interface{} {
+	out, _ := tsRunF(in, 0)
+	return out
+}
+
+func tsRunF(in tsWorld, failN int) (J, faultRun) {
 	cli := trBuildWith(in.Net, tsBuild(in.TR))
+	cli.Log = nil
 	canaryKey := trNS + "/" + trSvc // OnlyTrafficRouting: canary service name = stable service name
 	trSetMem(in.Mem, canaryKey)
 	rec := trctl.VerifNewReconciler(cli, theScheme)
+	cli.Calls, cli.FailCallN, cli.FaultHit = 0, failN, ""
 	res, err := rec.Reconcile(context.TODO(), ctrl.Request{NamespacedName: types.NamespacedName{Namespace: trNS, Name: "tr"}})
+	cli.FailCallN = 0
+	fr := faultRun{Err: err != nil, Requeue: res.RequeueAfter > 0 || res.Requeue, Calls: cli.Calls, Hit: cli.FaultHit, Writes: writesOf(cli)}
 	out := J{"requeue": res.RequeueAfter > 0 || res.Requeue, "err": err != nil}
 	got := &v1alpha1.TrafficRouting{}
 	t := in.TR
@@ -98,7 +107,7 @@ func tsRun(in tsWorld) interface{} {
 	out["net"] = trAbstract(cli)
 	out["mem"] = trGetMem(canaryKey)
 	grace.ResetExpectations()
-	return out
+	return out, fr
 }
 
 func tsCase(c *Ctx, in tsWorld) {
@@ -135,11 +144,26 @@ func genTRSM(c *Ctx) tsWorld {
 
 func runTRSM(c *Ctx) {
 	for i := 0; i < c.N; i++ {
-		tsCase(c, genTRSM(c))
+		in := genTRSM(c)
+		tsCase(c, in)
+		if i%4 == 0 {
+			faultSweep(c, in, c.Thorough() && i%20 == 0, func(n int) faultRun { _, r := tsRunF(in, n); return r })
+		}
 	}
 }
 
 func replayTRSM(c *Ctx, op string, raw json.RawMessage) {
+	if op == "fault" {
+		var f struct {
+			In tsWorld `json:"in"`
+			K  int     `json:"k"`
+		}
+		if err := json.Unmarshal(raw, &f); err != nil {
+			panic(err)
+		}
+		faultReplay(c, f.In, f.K, func(n int) faultRun { _, r := tsRunF(f.In, n); return r })
+		return
+	}
 	var in tsWorld
 	if err := json.Unmarshal(raw, &in); err != nil {
 		panic(err)
